@@ -1,0 +1,44 @@
+//go:build verif
+
+package core
+
+import "go.nanomsg.org/mangos/v3"
+
+// Verification hooks (build tag verif only): read-only views of the pipe ID
+// allocator and of a socket's pipe list, plus a reset of the allocator so that
+// model-checking runs start every execution from the same state.
+
+// VerifPipeIDsInUse returns the number of pipe IDs currently allocated.
+func VerifPipeIDsInUse() int {
+	pipeIDs.lock.Lock()
+	defer pipeIDs.lock.Unlock()
+	return len(pipeIDs.used)
+}
+
+// VerifPipeIDUsed reports whether id is currently allocated.
+func VerifPipeIDUsed(id uint32) bool {
+	pipeIDs.lock.Lock()
+	defer pipeIDs.lock.Unlock()
+	_, ok := pipeIDs.used[id]
+	return ok
+}
+
+// VerifResetPipeIDs forgets all allocated IDs; the next Get re-seeds the allocator.
+func VerifResetPipeIDs() {
+	pipeIDs.lock.Lock()
+	pipeIDs.used = nil
+	pipeIDs.next = 0
+	pipeIDs.lock.Unlock()
+}
+
+// VerifSocketPipes returns the number of pipes still listed by the socket,
+// or -1 if s is not a core socket.
+func VerifSocketPipes(s mangos.Socket) int {
+	cs, ok := s.(*socket)
+	if !ok {
+		return -1
+	}
+	cs.pipes.lock.Lock()
+	defer cs.pipes.lock.Unlock()
+	return len(cs.pipes.pipes)
+}
